@@ -295,10 +295,29 @@ class Generator:
                 except Exception as ex:
                     self.problems.append(('unsupported', it.key + '__wf', str(ex)))
         items += extra2
-        proven_keys = {(it.kind, it.key) for it in items if it.kind in ('fn', 'const') and not it.assumed}
-        items = [it for it in items if not (it.assumed and (it.kind, it.key) in proven_keys)]
+        # an `[assumed]` entry is dropped when a real entry for the same KEY exists - decided per generated file
+        # (effective_items), because `scope=` may hide the real entry from the unit that declared the assumption
         self.items = items
         return items
+
+    @staticmethod
+    def _visible(it, unit):
+        # `scope=REGEX` (entry option, or file-level `//! scope REGEX` default): the entry is emitted only in
+        # its own unit and in units whose name matches; keeps large trait-impl families (ops) out of
+        # unrelated units' files and lets two units state different contracts for one external-trait impl
+        sc = it.entry.opts.get('scope')
+        if sc is None or it.entry.unit == unit:
+            return True
+        return re.fullmatch(sc, unit) is not None
+
+    def effective_items(self, unit):
+        """the items that appear in the generated file of `unit`: visible ones, minus `[assumed]` entries whose
+        KEY has a real (non-assumed) entry visible in the same file"""
+        if self.items is None:
+            self.build_items()
+        vis = [it for it in self.items if self._visible(it, unit)]
+        proven = {(it.kind, it.key) for it in vis if it.kind in ('fn', 'const') and not it.assumed}
+        return [it for it in vis if not (it.assumed and (it.kind, it.key) in proven)]
 
     def _extract(self, it):
         """-> (sig tokens, body tokens, impl_header, modpath) after rewrites"""
@@ -908,7 +927,7 @@ class Generator:
 
         # module tree
         tree = {}
-        for it in self.items:
+        for it in self.effective_items(unit):
             if it.kind in ('fn', 'const') and it.impl_header is None:
                 mp = it.modpath
             elif it.kind in ('raw', 'spec') and it.modpath:
@@ -926,13 +945,7 @@ class Generator:
             node.setdefault('items', []).append(it)
 
         def visible(it):
-            # `scope=REGEX` (entry option, or file-level `//! scope REGEX` default): the entry is emitted only in
-            # its own unit and in units whose name matches; keeps large trait-impl families (ops) out of
-            # unrelated units' files and lets two units state different contracts for one external-trait impl
-            sc = it.entry.opts.get('scope')
-            if sc is None or it.entry.unit == unit:
-                return True
-            return re.fullmatch(sc, unit) is not None
+            return True    # already filtered by effective_items
 
         def emit_node(node, depth):
             its = [it for it in node.get('items', []) if visible(it)]
